@@ -110,3 +110,4 @@ LEVEL_NOTE = ("Trusted: Coq kernel, extraction (ExtrOcamlBasic), the harness and
               "than NaN are decided by C03's model of doubles_equal; custom-type comparators are outside the model. Flocq brings the stdlib axioms "
               "classic, functional_extensionality_dep, sig_forall_dec, sig_not_dec (named by Print Assumptions in the evidence).")
 TECHNIQUE = "Coq proof over hand-written executable model + extracted-model/implementation correspondence check (differential, exhaustive boundary lattice)"
+READY = True
